@@ -8,7 +8,6 @@ import (
 
 	"golang.org/x/tools/go/ssa"
 
-	"jsverif/internal/prog"
 	"jsverif/internal/ssaeval"
 )
 
@@ -66,7 +65,7 @@ func (c *Ctx) stackFacts() *stackFacts {
 		return f
 	}
 	follow := func(fn *ssa.Function) bool {
-		return fn.Pkg != nil && strings.HasPrefix(fn.Pkg.Pkg.Path(), prog.ModulePath)
+		return inModule(fn)
 	}
 	// ---- Push(s, scanner, at)
 	ev := &ssaeval.Eval{MaxDepth: 4, MaxPaths: 256, Follow: follow}
@@ -163,7 +162,7 @@ func (c *Ctx) stackFacts() *stackFacts {
 		popped++
 		// the stack as it was when Pop was entered
 		stackT := "L(s." + stackField + ")@0"
-		last := fmt.Sprintf("-(len(%s),1)", stackT)
+		last := fmt.Sprintf("len(%s){-1}", stackT)
 		top := fmt.Sprintf("%s[%s]", stackT, last)
 		wantPrefix := "L(" + top + "." + itemScanner + ")@"
 		r := o.Rets[0].Term()
